@@ -592,8 +592,44 @@ except ValueError:
         f = ix.func(site)
         from sa.helpers import need
         ps = f.params()
-        need(R, '7.merge', 'ALG', site, 'merged count = count in the first formula + count in the second x factor, over the union of elements', f,
-             ['return {V_e: %s.get(V_e, 0) + %s.get(V_e, 0) * %s for V_e in set(%s) | set(%s)}' % (ps[0], ps[1], ps[2], ps[0], ps[1])])
+        stmt_m = 'merged count = count in the first formula + count in the second x factor, over the union of elements'
+        from sa.pattern import find as _find
+        pat = ['return {V_e: %s.get(V_e, 0) + %s.get(V_e, 0) * %s for V_e in set(%s) | set(%s)}' % (ps[0], ps[1], ps[2], ps[0], ps[1])]
+        if _find(f.node, pat)[0] is not None:
+            R.ok('7.merge', 'ALG', site, stmt_m, loc=f.loc())
+        else:
+            # the loop spelling: a copy of the first formula, updated once per element of the second
+            fl = mkflow(ix, site)
+            pe = param_env(fl, f, ['a', 'b', 'k'])
+            sts = [e for e in fl.of('store') if len(e.loops) == 1]
+            decided = False
+            for e in sts:
+                lp = e.loops[0]
+                ta = atom_of(fl, e.target)
+                if ta is None or ta.head != 'idx' or lp.iter_rf is None or not fl.tab.equal(lp.iter_rf[0], spec(fl, 'b.items()', pe)):
+                    continue
+                item = fl.tab.atom('elem', (lp.iter_rf[0], lp.index))
+                key_, cnt_ = fl.tab.atom('idx', (item, fl.tab.const(0))), fl.tab.atom('idx', (item, fl.tab.const(1)))
+                base_ = unalloc(fl, ta.args[0])
+                if not (fl.tab.equal(ta.args[1], key_) and (fl.tab.equal(base_, spec(fl, 'dict(a)', pe)) or
+                                                            fl.tab.equal(base_, spec(fl, 'a.copy()', pe)))):
+                    continue
+                cur = None
+                for g_ in e.value.all_atoms():
+                    at_ = fl.tab.atoms[g_]
+                    if at_.head in ('call', 'mcall') and at_.extra and at_.extra[0].endswith('get'):
+                        cur = RF(fl.tab, __import__('sa.algebra', fromlist=['p_atom']).p_atom(g_))
+                if cur is None:
+                    continue
+                want = cur + cnt_ * pe['k']
+                decided = True
+                R.check('7.merge', 'ALG', site, stmt_m, fl.tab.equal(e.value, want) and not e.guards and e.op is None,
+                        key=fmt(fl, e.value)[:120],
+                        detail='count stored for an element of the second formula is %s, expected %s (the factor multiplies the '
+                               'second formula only)' % (fmt(fl, e.value)[:160], fmt(fl, want)[:160]), loc=f.loc(e.node))
+                break
+            if not decided:
+                need(R, '7.merge', 'ALG', site, stmt_m, f, pat)
 
 
 def _getter(ix, R, site, attr):
